@@ -207,9 +207,10 @@ func KeysOf[M ~map[K]V, K comparable, V any](m M) []K {
 
 // RangeMap replaces `range m` for a map m: same entries, policy-chosen order.
 func RangeMap[M ~map[K]V, K comparable, V any](site uint32, m M) iter.Seq2[K, V] {
+	id := mapID(m)
 	return func(yield func(K, V) bool) {
 		if accActive {
-			accMap(site, mapID(m), false)
+			accMap(site, id, false)
 		}
 		if mapMode == OrderNative {
 			for k, v := range m {
